@@ -92,12 +92,11 @@ func finalChecks(run *vh.Run, e *wl.Env) {
 		if string(wp) == string(m.Pub) {
 			continue
 		}
-		w2, err := wl.Open(dir, wp, nil)
-		if err == nil {
+		// the way the node opens its wallet at start-up (poc/wallet.NewPoCWallet)
+		if err := wl.TryOpenNode(dir, wp); err == nil {
 			if hasKs {
 				e.Report([]string{"C02"}, "wrong-public-passphrase-opens-wallet", map[string]string{"pass_class": cls}, nil)
 			}
-			w2.Close()
 		} else {
 			run.Count("wrong_public_passphrase_refused:"+cls, 1)
 		}
